@@ -143,8 +143,8 @@ pub fn plan(prop: &str, tier: &str) -> Option<Plan> {
             if quick {
                 b.add_cases("gen/rc", e(0).set("k1", 1).set("k2", 1).set("init", 3).set("pre", 2), crate::scen::gen::rc_cases(1, 1), 12);
             } else {
-                for (e0, init, pre) in [(0, 3, 2), (0, 0, 2)] {
-                    b.add_cases("gen/rc", e(e0).set("k1", 2).set("k2", 2).set("init", init).set("pre", pre), crate::scen::gen::rc_cases(2, 2), 80);
+                for (init, pre, k1, k2) in [(3, 2, 1, 2), (3, 2, 2, 1), (3, 3, 1, 2), (0, 2, 1, 2), (0, 2, 2, 1)] {
+                    b.add_cases("gen/rc", e(0).set("k1", k1).set("k2", k2).set("init", init).set("pre", pre), crate::scen::gen::rc_cases(k1 as usize, k2 as usize), 40);
                 }
             }
             for u in b.units.iter_mut().filter(|u| u.scenario == "gen/rc") {
